@@ -177,3 +177,14 @@ func Run(name string, f func()) (outcome string) {
 	}
 	return "pass"
 }
+
+// ReplayMain runs the harness named by VRT_HARNESS (native replay entry point).
+func ReplayMain(hs map[string]func()) {
+	name := os.Getenv("VRT_HARNESS")
+	f, ok := hs[name]
+	if !ok {
+		fmt.Printf("OUTCOME %s unknown-harness\n", name)
+		return
+	}
+	Run(name, f)
+}
